@@ -7,13 +7,23 @@ def nontrivial(v):
     return bool(v["x"].get("nt"))
 
 
+def sigfn(v, o, why):
+    import common
+    if (v.get("x") or {}).get("special") == "fromtwice" and o["st"] == "ok":
+        # a recorded known finding: identified by the construct, not by the generic mismatch text
+        return "C11 from-twice: the same macro from-imported under two names in one tag, only one name is bound"
+    if o["st"] != "ok":
+        return "C11 %s %s" % (v.get("fam", ""), common.crash_sig(o))
+    return "C11 %s %s" % (v.get("fam", ""), why.split(" at event")[0])
+
+
 def check(run, only=None):
     run.rule = ("call form {_self, import alias, from-import, from-import renamed} x 0..4 parameters x 0..6 arguments x use of the "
                 "result {print, set and print twice, concatenate, argument of a function, argument of another macro call} x "
                 "nesting {none, loop, capture}; macro calling a macro; unknown macro of an imported set; "
                 "non-trivial = arity mismatch or nested call")
     run.assumptions = ["definitions precede use; an imported macro does not itself use _self (excluded by the property statement)"]
-    simple.gen_and_replay(run, "C11", nontrivial=nontrivial, only=only)
+    simple.gen_and_replay(run, "C11", nontrivial=nontrivial, only=only, sigfn=sigfn)
 
     if only is None:
         simple.tags_src(run, "C11")
